@@ -23,9 +23,22 @@ class FakeWriter:
         self.closed = False
         self.block_next = None
         self.waiting = {}
+        self.unparsed = bytearray()
+        self.frames = []
+        self.on_frame = None
 
     def write(self, b):
         self.data += b
+        # the peer's view of the stream: complete frames (16-byte id, 4-byte length, pickled body)
+        self.unparsed += b
+        while len(self.unparsed) >= 20:
+            n = int.from_bytes(self.unparsed[16:20], "big")
+            if len(self.unparsed) < 20 + n:
+                break
+            self.frames.append((bytes(self.unparsed[:16]), bytes(self.unparsed[20:20 + n])))
+            del self.unparsed[:20 + n]
+            if self.on_frame is not None:
+                self.on_frame(*self.frames[-1])
 
     async def drain(self):
         # the behaviour being replayed decides whether this drain() has to wait for the transport (large request)
@@ -120,6 +133,9 @@ class IpcDriver:
         self.blocked = set()
         self.reader = asyncio.StreamReader(loop=self.io)
         self.writer = FakeWriter()
+        self.wire_id = {}          # caller -> id carried by ITS request frame on the wire (what a real server answers under)
+        self.cur_send = None
+        self.writer.on_frame = self.saw_frame
         prov = ipc.ReaderWriterConnectionProvider(self.reader, self.writer, "peer", 1)
         orig_is_open = prov.is_open
 
@@ -193,12 +209,28 @@ class IpcDriver:
             time.sleep(0.0005)
         return name in self.outcomes
 
+    def saw_frame(self, raw_id, body):
+        import pickle
+        import uuid
+        try:
+            msg = pickle.loads(body)
+        except Exception:   # noqa
+            self.drift.append("request frame with an undecodable body")
+            return
+        if isinstance(msg, tuple) and len(msg) == 2 and msg[0] == "req":
+            c = int(msg[1])
+        else:
+            c = self.cur_send          # a close request: sent by the closer whose send step is being executed
+        if c is not None:
+            self.wire_id[c] = uuid.UUID(bytes=raw_id)
+
     # ------------------------------------------------------------------------------------- steps
     def frame_for(self, c, partial=False):
         if c == 0:                                      # a close REQUEST from the peer (nobody waits for this id)
             import uuid
             return self.ipc.encode_message(uuid.uuid4(), self.ipc.KGRemoteCloseConnection())
-        mid = self.id_of.get(f"c{c}")
+        # the peer answers a request under the id its frame carried on the wire (not under the id the caller registered)
+        mid = self.wire_id.get(c)
         if mid is None:
             return b""
         fr = self.ipc.encode_message(mid, self.ipc.KGRemoteCloseConnection() if c in self.closers else ("resp", c))
@@ -252,6 +284,7 @@ class IpcDriver:
                 self.do_peer_step(st)
             elif a == "lsend":
                 name = f"c{st['c']}"
+                self.cur_send = st["c"]
                 for i, (n, cb, args) in enumerate(self.held):
                     if n == name:
                         self.held.pop(i)
@@ -267,7 +300,12 @@ class IpcDriver:
                             break
                     self.writer.block_next = None
                 else:
+                    # creating the task and running it up to its first await are two iterations of the loop: the model's
+                    # LSend ends when the request frame is on the wire
+                    nfr = len(self.writer.frames)
                     self.io.step()
+                    if len(self.writer.frames) == nfr:
+                        self.io.step()
                 self.settle_threads()
             elif a == "ldrained":
                 fut = self.writer.waiting.pop(f"c{st['c']}", None)
